@@ -211,3 +211,12 @@ def run(ctx):
                       how="comparisons on producer-derived names in sort() and the helpers it calls; `<producer>.graph` never compared",
                       construct=f"scope by graph identity: {norm(cmp_)}")
     ctx.require(n_cmp >= 2, f"only {n_cmp} comparisons on producers found in Graph.sort and its helpers")
+    # Function.sort is Graph.sort of the function's graph on every path (no shortcut in the wrapper)
+    fs = repo.func(f"{CORE}:Function.sort")
+    cfg_f = CFG(fs.node)
+    deleg = [c for c in calls_in(fs) if isinstance(c.func, ast.Attribute) and c.func.attr == "sort" and norm(c.func.value) in ("self._graph", "self.graph")]
+    ok = len(deleg) == 1 and not cfg_f.path_exists_avoiding(cfg_f.entry, {cfg_f.exit.id}, {cfg_f.nodes_containing(deleg[0])[0].id}, exc=False)
+    ctx.check("R3", "Function.sort delegates to its graph's sort on every path", ok, fs, fs.node,
+              "Function.sort can return without sorting (a shortcut before the delegation): nested subgraphs of the body stay unsorted and a "
+              "cycle is not reported on the Function path",
+              how="the call self._graph.sort() lies on every path from entry to exit", construct="Function.sort shortcut")
